@@ -3,8 +3,31 @@ Arc half: props/C18_arc.v + c18_arc.run_part; sequence half: props/C18_seq.v + c
 from props import c18_arc, c18_seq
 
 
+GEN = {
+    "arcenum": ("translate_arcenum", "C18_arc_gen",
+                "harness/translate_arcenum.py + translate_enumcore.py (ast -> Gallina printer for the enumeration loops, "
+                "admissibility tests and index lookups of ArcBasedRoutingProblem; Python semantics of the emitted "
+                "combinators: coq/theories/PyEnumCore.v, PyArc.v)"),
+    "seqenum": ("translate_seqenum", "C18_seq_gen",
+                "harness/translate_seqenum.py + translate_enumcore.py (ast -> Gallina printer for the six fixing rules, the "
+                "enumeration loops, fixed_values / var_mapping / var_mapping_inverse and the index lookups of "
+                "SequenceBasedRoutingProblem; Python semantics of the emitted combinators: coq/theories/PyEnumCore.v, PySeq.v)"),
+}
+
+
+def gen_steps(ctx, keys):
+    """Models regenerated from the source of the tree under test, proved equal to the hand models
+    (DEV_GEN.md).  Failures are deferred by ctx.gen_step: the oracle / correspondence below still run."""
+    import importlib
+    for key in keys:
+        mod, genprops, trusted = GEN[key]
+        T = importlib.import_module(mod)
+        ctx.gen_step(key, T.translate, genprops, trusted)
+
+
 def run(ctx):
     ctx.prove(props=["C18_arc", "C18_seq"])
+    gen_steps(ctx, ("arcenum", "seqenum"))
     c18_arc.run_part(ctx)
     c18_seq.run_part(ctx)
     if ctx.tier == "thorough":
